@@ -114,6 +114,22 @@ def run(tier, seed, replay=None):
                 if not okv: V.fail("%s does not reproduce the value / metadata [%s]" % (name, kind), desc)
             d_ = snap.diff(x)
             if d_: V.fail("operand changed by save/load/copies: %s" % d_[0], dict(desc, differences=d_))
+            # copies of objects whose cores are tracked by autograd: a watched leaf, and the result of an operation on it (non-leaf cores).
+            # detach / clone return the same value; detach's result is outside the graph while the ORIGINAL stays watched
+            if not x.cores[0].dtype.is_complex and x.cores[0].dtype.is_floating_point and i % 3 == 0:
+                xw = torchtt.TT([c.clone() for c in x.cores]); torchtt.grad.watch(xw)
+                derived = xw * 2.0 if len(xw.cores) else xw
+                for nm_, src_ in (("watched leaf", xw), ("result of an operation on a watched object", derived)):
+                    for cp_ in ("detach", "clone"):
+                        try:
+                            z_ = src_.detach() if cp_ == "detach" else src_.clone()
+                            same = all(torch.equal(a_.detach(), b_.detach()) for a_, b_ in zip(z_.cores, src_.cores)) and not history.wf_failures(z_)
+                            if not same: V.fail("%s of a %s does not reproduce the value [%s]" % (cp_, nm_, kind), desc)
+                            if cp_ == "detach" and any(c.requires_grad for c in z_.cores): V.fail("detach of a %s returns cores that are still tracked [%s]" % (nm_, kind), desc)
+                            if not all(c.requires_grad for c in src_.cores): V.fail("%s of a %s switched the tracking of the ORIGINAL off [%s]" % (cp_, nm_, kind), desc)
+                        except Exception as ex:
+                            V.fail("%s of a %s raises %s [%s]" % (cp_, nm_, type(ex).__name__, kind), dict(desc, exc=str(ex)[:200]))
+                dist["copies of tracked objects"] = dist.get("copies of tracked objects", 0) + 1
     n_ok = 0
     if ok_make:
         res = coqrun.eval_nat_lists("C19_m", "From TT Require Import Core Meta.", "", exprs, shard=60)
